@@ -211,7 +211,9 @@ def gen_file(r, max_recs=9):
         row = []
         for j in range(width):
             if j == 2:
-                row.append(str(r.choice([0, 1, 2, 3, 5, 10, 12, -1])) if r.random() < 0.9 else r.choice(["1.0", "01", "3.0", "1"]))
+                # (numbers as people write them — thousands separators, currency signs — are text to the comparison functions)
+                row.append(str(r.choice([0, 1, 2, 3, 5, 10, 12, -1])) if r.random() < 0.88 else
+                           r.choice(["1.0", "01", "3.0", "1", "1,200", "$4", "2;5", "€9", "1,0"]))
             elif j == 1:
                 row.append(str(r.randint(0, 4)) if r.random() < 0.6 else r.choice(WORDS))
             else:
